@@ -978,12 +978,12 @@ impl Puppet {
         }
         match (ev.svc, phase) {
             (SVC_CONSENSUS, Phase::Written) => {
-                if let Ok(m) = bincode::deserialize::<ConsensusMessage>(&data) {
+                if let Some(m) = crate::obs::safe_deserialize::<ConsensusMessage>(&data) {
                     self.node_emitted(&m);
                 }
             }
             (SVC_CONSENSUS, Phase::Delivered) => {
-                if let Ok(m) = bincode::deserialize::<ConsensusMessage>(&data) {
+                if let Some(m) = crate::obs::safe_deserialize::<ConsensusMessage>(&data) {
                     match m {
                         ConsensusMessage::Propose(_) => {
                             if !self.mute_ack {
@@ -1006,7 +1006,7 @@ impl Puppet {
             }
             (SVC_MEMPOOL, Phase::Delivered) => {
                 let _ = self.c.net.h_send_frame(ev.conn, false, b"Ack");
-                if let Ok(MempoolMessage::BatchRequest(ds, _)) = bincode::deserialize::<MempoolMessage>(&data) {
+                if let Some(MempoolMessage::BatchRequest(ds, _)) = crate::obs::safe_deserialize::<MempoolMessage>(&data) {
                     for d in ds {
                         if self.withheld_batches.contains(&d) {
                             continue;
